@@ -7,9 +7,9 @@ from rules import c03 as C03
 from rules import templates as T
 
 SOAP11 = "http://schemas.xmlsoap.org/soap/envelope/"
-OP_EMITTERS = ("model::soap::service::write_async_soap_call", "model::soap::binding::writer::write_soap_action")
-SERVICE = "<model::soap::service::SoapService as reader::WriteXml<W>>::write_xml"
-BINDING = "model::soap::binding::writer::<impl reader::WriteXml<W> for model::soap::binding::SoapBinding>::write_xml"
+from rules import anchors as A
+SERVICE = A.SERVICE_WRITER
+BINDING = A.BINDING_WRITER
 ADAPTERS = ("iter::filter", "iter::skip", "iter::take", "iter::step_by", "iter::rev", "iter::take_while", "iter::skip_while", "iter::filter_map")
 
 
@@ -31,10 +31,13 @@ def run(ck, F):
                   "binding body part from body@parts else the message's first part; header parts by key")
     X = T.extractor(F)
     CE = og.CallExpander(F)
-    wso = [fn for fn in X.events if fn.endswith("write_soap_operation")]
-    if len(wso) != 1:
-        ck.undecided("R1", "anchor", "-", f"expected one envelope emitter, found {len(wso)}")
+    # the emitters are found by what they write under the binding / service writers, not by name
+    ENV_EMITTER = A.envelope_emitter(X)
+    OP_EMITTERS = (A.method_emitter(X), A.operation_fn_emitter(X))
+    if ENV_EMITTER is None or None in OP_EMITTERS:
+        ck.undecided("R1", "anchor", "-", f"the envelope / method / operation-function emitters could not be attributed: {ENV_EMITTER}, {OP_EMITTERS}")
         return
+    wso = [ENV_EMITTER]
     groups = T.struct_groups(X, wso[0])
     byname = {}
     for g in groups:
@@ -55,12 +58,12 @@ def run(ck, F):
     a = attrs[0] if attrs else {}
     ok = a.get("prefix") == ("lit", "soapenv") and a.get("rename") == ("lit", "Envelope")
     (ck.ok if ok else ck.violation)("R1", "envelope-attr", env.open.site, "Envelope struct: prefix=soapenv, rename=Envelope" if ok else
-                                    f"Envelope struct attribute is {a}: not soapenv:Envelope", fn="write_soap_operation")
+                                    f"Envelope struct attribute is {a}: not soapenv:Envelope", fn="envelope")
     ns, _found = C03.nsmap_entries(a, CE)
     if ns and any(k == ("lit", "soapenv") and v == ("lit", SOAP11) for k, v, _ in ns):
-        ck.ok("R1", "soapenv-uri", env.open.site, "soapenv -> " + SOAP11, fn="write_soap_operation")
+        ck.ok("R1", "soapenv-uri", env.open.site, "soapenv -> " + SOAP11, fn="envelope")
     else:
-        ck.violation("R1", "soapenv-uri", env.open.site, "soapenv is not bound to the SOAP 1.1 envelope namespace", fn="write_soap_operation")
+        ck.violation("R1", "soapenv-uri", env.open.site, "soapenv is not bound to the SOAP 1.1 envelope namespace", fn="envelope")
     mem = {og.nf_str(n): (ev, ctx) for (ev, n, ctx, ty) in env.members}
     mattrs = {}
     last = None
@@ -71,7 +74,7 @@ def run(ck, F):
             mattrs[T.RE_MEMBER.match(e.skeleton()).group(1)] = (last, e)
     for name, want in (("header", "Header"), ("body", "Body")):
         if name not in mattrs:
-            ck.violation("R1", f"member:{name}", env.open.site, f"Envelope has no `{name}` member", fn="write_soap_operation")
+            ck.violation("R1", f"member:{name}", env.open.site, f"Envelope has no `{name}` member", fn="envelope")
             continue
         at, e = mattrs[name]
         good = at and at.get("prefix") == ("lit", "soapenv") and at.get("rename") == ("lit", want)
@@ -82,12 +85,12 @@ def run(ck, F):
             good = False
         (ck.ok if good else ck.violation)("R1", f"member:{name}", e.site,
                                           f"Envelope.{name}: soapenv:{want}" + (" iff header parts are bound" if name == "header" else ", always") if good else
-                                          f"Envelope.{name} is annotated {at} / conditioned {T.ctx_str(T.relative_ctx(e.ctx, env.open.ctx))}", fn="write_soap_operation")
+                                          f"Envelope.{name} is annotated {at} / conditioned {T.ctx_str(T.relative_ctx(e.ctx, env.open.ctx))}", fn="envelope")
     # header struct and header check under the same condition
     same = cond_headers(hdr.open.ctx) and all(cond_headers(c[2]) for c in env.checks if og.nf_str(c[1]) == "'header'")
     (ck.ok if same else ck.violation)("R1", "header-condition", hdr.open.site,
                                       "Header struct, header member and header check share the condition `headers non-empty`" if same else
-                                      "Header struct / member / check are emitted under different conditions", fn="write_soap_operation")
+                                      "Header struct / member / check are emitted under different conditions", fn="envelope")
     # ---- R2
     rows = _pair_attrs(body)
     for (la, e) in rows:
@@ -97,18 +100,18 @@ def run(ck, F):
         rn = at.get("rename")
         rn_s = og.nf_str(rn[1]) if rn and rn[0] == "hole" else str(rn)
         ok_rn = "xml_name(soap_operation.body.rust_type)" in rn_s and "to_pascal_case" not in rn_s and "to_snake_case" not in rn_s
-        (ck.ok if ok_rn else ck.violation)("R2", f"rename:{tag}", e.site, f"Body member rename = {rn_s[:80]}" + ("" if ok_rn else " — not the body element's XML name"), fn="write_soap_operation")
+        (ck.ok if ok_rn else ck.violation)("R2", f"rename:{tag}", e.site, f"Body member rename = {rn_s[:80]}" + ("" if ok_rn else " — not the body element's XML name"), fn="envelope")
         if has_ns:
             pf = at.get("prefix")
             pf_s = og.nf_str(pf[1]) if pf and pf[0] == "hole" else str(pf)
             ok_pf = pf_s == "Some⟨soap_operation.body.in_namespace⟩.abbreviation"
-            (ck.ok if ok_pf else ck.violation)("R2", "prefix", e.site, f"Body member prefix = {pf_s[:80]}" + ("" if ok_pf else " — not the body element's namespace"), fn="write_soap_operation")
+            (ck.ok if ok_pf else ck.violation)("R2", "prefix", e.site, f"Body member prefix = {pf_s[:80]}" + ("" if ok_pf else " — not the body element's namespace"), fn="envelope")
         holes = [og.nf_str(CE.expand(h[0])) for h in e.holes()]
         ty_ok = any(_is_struct_of(CE.expand(h[0]), "soap_operation.body.rust_type") for h in e.holes()[1:])
         mod_ok = (not has_ns) or any(h == "Some⟨soap_operation.body.in_namespace⟩.rust_mod_name" for h in holes[1:])
         (ck.ok if ty_ok and mod_ok else ck.violation)("R2", f"type:{tag}", e.site,
                                                        "Body member type = <module of the element's namespace>::PascalCase(element name)" if ty_ok and mod_ok else
-                                                       f"Body member type holes {holes[1:]} are not module::PascalCase(element)", fn="write_soap_operation")
+                                                       f"Body member type holes {holes[1:]} are not module::PascalCase(element)", fn="envelope")
     ck.floor("R2", "Body member templates", len(rows), 2)
     # ---- R3
     rows = _pair_attrs(hdr)
@@ -118,19 +121,19 @@ def run(ck, F):
         has_ns = any(c[0] == "alt" and "in_namespace" in og.nf_str(c[1]) and c[2] for c in e.ctx)
         tag = "+ns" if has_ns else "-ns"
         if st != [HS]:
-            ck.violation("R3", f"loop:{tag}", e.site, f"header members are emitted over {st}, not once per bound header part (`{HS}` unfiltered)", fn="write_soap_operation")
+            ck.violation("R3", f"loop:{tag}", e.site, f"header members are emitted over {st}, not once per bound header part (`{HS}` unfiltered)", fn="envelope")
         at = la[0] if la else {}
         rn = at.get("rename")
         rn_s = og.nf_str(rn[1]) if rn and rn[0] == "hole" else str(rn)
         ok_rn = f"xml_name(each({HS}).1.rust_type)" in rn_s and "to_pascal_case" not in rn_s
         (ck.ok if ok_rn else ck.violation)("R3", f"rename:{tag}", e.site,
                                            f"Header member rename = {rn_s[:90]}" + ("" if ok_rn else " — not the XML name of the element the part refers to "
-                                                                                   "(a part named differently from its element is serialized under the wrong name)"), fn="write_soap_operation")
+                                                                                   "(a part named differently from its element is serialized under the wrong name)"), fn="envelope")
         if has_ns:
             pf = at.get("prefix")
             pf_s = og.nf_str(pf[1]) if pf and pf[0] == "hole" else str(pf)
             ok_pf = pf_s == f"Some⟨each({HS}).1.in_namespace⟩.abbreviation"
-            (ck.ok if ok_pf else ck.violation)("R3", "prefix", e.site, f"Header member prefix = {pf_s[:80]}" + ("" if ok_pf else " — not the element's namespace"), fn="write_soap_operation")
+            (ck.ok if ok_pf else ck.violation)("R3", "prefix", e.site, f"Header member prefix = {pf_s[:80]}" + ("" if ok_pf else " — not the element's namespace"), fn="envelope")
         holes = [og.nf_str(CE.expand(h[0])) for h in e.holes()]
         nch, nroot = og.sanitiser_chain(CE.expand(e.holes()[0][0])) if e.holes() else ([], None)
         nm_ok = bool(e.holes()) and "to_snake_case" in nch and nch[0] == "rename_keywords" and og.nf_str(nroot) == f"each({HS}).0"
@@ -138,11 +141,11 @@ def run(ck, F):
         opt_ok = "Option<" in e.skeleton()
         (ck.ok if nm_ok and ty_ok and opt_ok else ck.violation)("R3", f"member:{tag}", e.site,
                                                                "Header member: field name from the part name, type Option<PascalCase(element)>" if nm_ok and ty_ok and opt_ok else
-                                                               f"Header member template `{e.skeleton().strip()}` with holes {holes}", fn="write_soap_operation")
+                                                               f"Header member template `{e.skeleton().strip()}` with holes {holes}", fn="envelope")
     ck.floor("R3", "Header member templates", len(rows), 2)
     # ---- R4
-    svc_calls = [ev for ev in X.events.get(SERVICE, []) if ev.kind == "call" and ev.callee.endswith("write_async_soap_call")]
-    bnd_calls = [ev for ev in X.events.get(BINDING, []) if ev.kind == "call" and ev.callee.endswith("write_soap_operation")]
+    svc_calls = [ev for ev in X.events.get(SERVICE, []) if ev.kind == "call" and ev.callee == OP_EMITTERS[0]]
+    bnd_calls = [ev for ev in X.events.get(BINDING, []) if ev.kind == "call" and ev.callee == ENV_EMITTER]
     def loop_of(ev):
         st = T.stars(ev.ctx)
         return og.nf_str(st[-1]) if st else None
@@ -303,62 +306,90 @@ def rule_resolution(ck, F):
         ck.ok("R6", "part-key", "message.rs", "parts are keyed by part@name")
     else:
         ck.violation("R6", "part-key", "message.rs", f"parts are keyed by {seen.get('entry')}")
-    # binding: body part
-    b = F.lib.body("model::soap::binding::read_body_port_message")
-    if b is None:
-        ck.undecided("R6", "body-part", "-", "read_body_port_message not found")
+    # binding side: the functions reached from SoapBinding's conversion are read by what they do (which attribute they read, which
+    # table they search), not by their names
+    from rules import anchors as A
+    g = scans.call_graph(F.lib)
+    broot = "<model::soap::binding::SoapBinding as model::TryFromNode<'n>>::try_from_node"
+    bfns = [f_ for f_ in [broot] + sorted(scans.reachable(g, [broot])) if A._local_fn(F, f_) and f_.startswith(("model::soap::binding", "<model::soap::binding"))]
+    bfns = list(dict.fromkeys(bfns))
+    if not bfns or F.lib.body(broot) is None:
+        ck.undecided("R6", "body-part", "-", "SoapBinding's conversion function not found")
         return
-    nb = Hh.norm_body(b)
-    txt = " ".join(Hh.describe(x) for x in Hh.exprs(nb["value"]) if x.get("k") in ("MethodCall", "Call"))
-    explicit = "attribute('parts')" in txt and "map_to_rust_node" in txt
-    first = ".parts.iter().next()" in txt.replace(" ", "") or "parts.iter().next()" in txt
-    (ck.ok if explicit else ck.violation)("R6", "body-part:explicit", b["span"], "body@parts selects the body part by key" if explicit else "body@parts is not used to select the body part")
-    (ck.ok if first else ck.violation)("R6", "body-part:default", b["span"], "without body@parts the message's first part (document order) is the body" if first else
-                                       "the default body part is not the first part of the message")
-    m = F.lib.body("model::soap::binding::map_to_rust_node")
-    if m is not None:
-        # every lookup in the message's part table: `parts.get(name)`, or a search whose predicate is exactly `key == name`
-        looks = []
 
-        def cbm(e, env, ctx):
+    def is_parts_table(e):
+        base = Hh.strip(e)
+        while base.get("k") == "MethodCall" and base["name"] in ("iter", "into_iter", "as_ref", "clone", "by_ref", "deref"):
+            base = Hh.strip(base["recv"])
+        bty = (base.get("ty") or "") + (base.get("adj_ty") or "")
+        return "OrderedMap<" in bty and "RustNode" in bty
+
+    # every lookup in a message's part table: `parts.get(name)`, or a search whose predicate is exactly `key == name`
+    looks, fetchers, firsts, attr_reads = [], set(), [], {}
+    for f_ in bfns:
+        def cbm(e, env, ctx, f_=f_):
             if e.get("k") != "MethodCall":
                 return
+            if e["name"] == "attribute" and e["args"]:
+                a0 = Hh.strip(e["args"][0])
+                if a0.get("k") == "Lit" and a0.get("lit") == "str":
+                    attr_reads.setdefault(a0["v"], set()).add(f_)
             recv = W.NF.nf(e["recv"], env)
-            # the receiver is a message's part table: by field name, or by its type (reached through a helper or a binding)
-            base = Hh.strip(e["recv"])
-            while base.get("k") == "MethodCall" and base["name"] in ("iter", "into_iter", "as_ref", "clone", "by_ref", "deref"):
-                base = Hh.strip(base["recv"])
-            bty = (base.get("ty") or "") + (base.get("adj_ty") or "")
-            on_parts = (isinstance(recv, tuple) and recv[0] == "field" and recv[2] == "parts") or ("OrderedMap<" in bty and "RustNode" in bty)
+            on_parts = (isinstance(recv, tuple) and recv[0] == "field" and recv[2] == "parts") or is_parts_table(e["recv"])
             if e["name"] in ("get", "get_key_value") and on_parts and e["args"]:
                 looks.append(("get", e, None))
+                fetchers.add(f_)
             if e["name"] in ("find", "position", "any", "filter", "find_map", "rfind") and on_parts and e["args"]:
                 pred = W.NF.closure_apply(e["args"][0], [("elem", recv)], env)
                 looks.append((e["name"], e, pred))
-        W.walk_fn(m["path"], cbm)
-        bad = []
-        for how, e, pred in looks:
-            if how == "get":
-                continue
-            ps = og.nf_str(pred)
-            exact = isinstance(pred, tuple) and pred[0] == "binop" and pred[1] == "Eq" and ".0" in ps and " Or " not in ps and " And " not in ps
-            if not exact:
-                bad.append((how, Hh.sp(e), ps[:140]))
-        if looks and not bad:
-            ck.ok("R6", "parts-by-key", m["span"], f"named parts are fetched by key ({len(looks)} lookup(s): {sorted({l[0] for l in looks})})")
-        elif not looks:
-            ck.violation("R6", "parts-by-key", m["span"], "named parts are not fetched by key: no lookup in the message's part table found")
-        else:
-            for how, site, ps in bad:
-                ck.violation("R6", "parts-by-key", site, f"a bound part is selected by `{how}` with the predicate {ps}: not (only) the part name, so another part can be "
-                             f"taken for the bound one")
-    h = F.lib.body("model::soap::binding::read_header_port_message")
-    if h is not None:
-        ht = " ".join(Hh.describe(x) for x in Hh.exprs(Hh.norm_body(h)["value"]) if x.get("k") in ("MethodCall", "Call"))
-        okh = "attribute('part')" in ht and "map_to_rust_node" in ht
-        (ck.ok if okh else ck.violation)("R6", "header-part", h["span"], "header part = header@part, fetched by key" if okh else "header parts are not taken from header@part")
-    p = F.lib.body("model::soap::port::read_port_operation")
-    if p is not None:
-        pt = " ".join(Hh.describe(x) for x in Hh.exprs(Hh.norm_body(p)["value"]) if x.get("k") in ("MethodCall", "Call"))
-        okp = "attribute('message')" in pt and "find_message_by_xml_name" in pt
-        (ck.ok if okp else ck.violation)("R6", "operation->message", p["span"], "input/output@message resolved to the WSDL message" if okp else "operations do not resolve input/output@message")
+                fetchers.add(f_)
+            if e["name"] in ("next", "first") and not e["args"] and on_parts:
+                firsts.append((f_, e))
+        W.walk_fn(f_, cbm)
+
+    def reaches_fetcher(f_):
+        return f_ in fetchers or bool(scans.reachable(g, [f_]) & fetchers)
+    body_fns = sorted(attr_reads.get("parts", ()))
+    bspan = F.lib.body(body_fns[0])["span"] if body_fns else F.lib.body(broot)["span"]
+    explicit = bool(body_fns) and all(reaches_fetcher(f_) for f_ in body_fns)
+    first = bool(body_fns) and any(f_ in body_fns or f_ in scans.reachable(g, body_fns) for f_, _ in firsts)
+    (ck.ok if explicit else ck.violation)("R6", "body-part:explicit", bspan, "body@parts selects the body part by key" if explicit else "body@parts is not used to select the body part")
+    (ck.ok if first else ck.violation)("R6", "body-part:default", bspan, "without body@parts the message's first part (document order) is the body" if first else
+                                       "the default body part is not the first part of the message")
+    bad = []
+    for how, e, pred in looks:
+        if how == "get":
+            continue
+        ps = og.nf_str(pred)
+        exact = isinstance(pred, tuple) and pred[0] == "binop" and pred[1] == "Eq" and ".0" in ps and " Or " not in ps and " And " not in ps
+        if not exact:
+            bad.append((how, Hh.sp(e), ps[:140]))
+    fspan = F.lib.body(sorted(fetchers)[0])["span"] if fetchers else bspan
+    if looks and not bad:
+        ck.ok("R6", "parts-by-key", fspan, f"named parts are fetched by key ({len(looks)} lookup(s): {sorted({l[0] for l in looks})})")
+    elif not looks:
+        ck.violation("R6", "parts-by-key", fspan, "named parts are not fetched by key: no lookup in the message's part table found")
+    else:
+        for how, site, ps in bad:
+            ck.violation("R6", "parts-by-key", site, f"a bound part is selected by `{how}` with the predicate {ps}: not (only) the part name, so another part can be "
+                         f"taken for the bound one")
+    header_fns = sorted(attr_reads.get("part", ()))
+    if header_fns:
+        okh = all(reaches_fetcher(f_) for f_ in header_fns)
+        (ck.ok if okh else ck.violation)("R6", "header-part", F.lib.body(header_fns[0])["span"], "header part = header@part, fetched by key" if okh else "header parts are not taken from header@part")
+    # port side: input/output@message resolved through the by-(name, namespace) lookup of WSDL messages
+    proots = [b_["path"] for b_ in F.lib.bodies if b_["path"].startswith("<model::soap::port::") and b_["path"].endswith("TryFromNode<'n>>::try_from_node")]
+    pfns = [f_ for f_ in list(proots) + sorted(scans.reachable(g, proots)) if A._local_fn(F, f_) and "soap::port" in f_]
+    msg_lookups = {f_["path"] for f_ in A._fn_items(F) if "SoapMessage" in f_["output"] and any(A._norm_ty(x) == "std::option::Option<&model::Namespace>" for x in f_["inputs"])}
+    reads_message, resolves = None, False
+    for f_ in dict.fromkeys(pfns):
+        nb_ = Hh.norm_body(F.lib.body(f_))
+        for x in Hh.exprs(nb_["value"]):
+            if x.get("k") == "MethodCall" and x["name"] == "attribute" and x["args"] and Hh.strip(x["args"][0]).get("v") == "message":
+                reads_message = f_
+            if x.get("k") in ("MethodCall", "Call") and (Hh.callee_path(x) or "") in msg_lookups:
+                resolves = True
+    if pfns:
+        okp = reads_message is not None and resolves
+        (ck.ok if okp else ck.violation)("R6", "operation->message", F.lib.body(reads_message or pfns[0])["span"],
+                                         "input/output@message resolved to the WSDL message" if okp else "operations do not resolve input/output@message")
